@@ -9,6 +9,7 @@ mod s_dhcpwire;
 mod s_pool;
 mod s_dhcp;
 mod s_acl;
+mod s_dns;
 
 /// Virtual wall clock: when >= 0, every CLOCK_REALTIME read in this process (Rust std and C
 /// libraries alike) returns this many seconds. The symbol overrides libc's at static link time.
@@ -53,11 +54,18 @@ fn run_case(line: &str) -> String {
         "dhcp" => s_dhcp::history(args),
         "acl" => s_acl::check(args),
         "leasejson" => s_acl::leasejson(args),
+        "bucket" => s_dns::bucket(args),
+        "ratelimit" => s_dns::ratelimit(args),
+        "cache" => s_dns::cache(args),
         _ => format!("bad-suite:{}", suite),
     }));
     match r {
         Ok(s) => s,
-        Err(_) => format!("panic:{}", LAST_PANIC.with(|p| p.borrow().clone())),
+        Err(_) => {
+            let p = LAST_PANIC.with(|p| p.borrow().clone());
+            // a panic inside the harness's own glue (bad input line) is not an observation of erbium
+            if p.starts_with("src/") { format!("harness-error:{}", p) } else { format!("panic:{}", p) }
+        }
     }
 }
 
